@@ -58,12 +58,21 @@ STYLES = {
     "restrict": {"leaves": ("r1", "r2", "r3"), "ops": ()},
     "srcuri": {"leaves": ("h://s/f1", "h://s/f2 -> n2", "m://f3"), "ops": ()},
     "requse": {"leaves": ("a", "!a", "b"), "ops": ("||", "()", "^^", "??")},
+    # reduced alphabets that reach one node deeper (nested groups next to a conditional); parsed like their base style
+    "dep2": {"leaves": ("a/b", "!a/d"), "ops": ("||", "()"), "conds": ("x?",), "base": "dep"},
+    "requse2": {"leaves": ("a", "b"), "ops": ("||", "^^", "??"), "conds": ("x?",), "base": "requse"},
 }
+
+
+def base(style):
+    return STYLES[style].get("base", style)
+
+
 CHOICE = ("||", "^^", "??")
 ALL_OPS = ("||", "^^", "??")
 SIZES = {
-    "quick": {"dep": 5, "license": 4, "restrict": 5, "srcuri": 5, "requse": 5},
-    "thorough": {"dep": 6, "license": 5, "restrict": 6, "srcuri": 6, "requse": 6},
+    "quick": {"dep": 5, "license": 4, "restrict": 5, "srcuri": 5, "requse": 5, "dep2": 6, "requse2": 6},
+    "thorough": {"dep": 6, "license": 5, "restrict": 6, "srcuri": 6, "requse": 6, "dep2": 7, "requse2": 7},
 }
 
 
@@ -72,7 +81,7 @@ def conds(tier):
 
 
 def kinds(style, tier):
-    return STYLES[style]["ops"] + conds(tier)
+    return STYLES[style]["ops"] + STYLES[style].get("conds", conds(tier))
 
 
 def compositions(n, maxparts):
@@ -149,7 +158,7 @@ def ref_empty(t, U):
 
 
 def leaf_true(style, leaf, S):
-    if style == "requse" and leaf[0] == "!":
+    if base(style) == "requse" and leaf[0] == "!":
         return leaf[1:] not in S
     return leaf in S
 
@@ -197,7 +206,7 @@ def tree_flags(t, acc):
 
 def tree_vars(style, t, acc):
     if isinstance(t, str):
-        acc.add(t[1:] if style == "requse" and t[0] == "!" else t)
+        acc.add(t[1:] if base(style) == "requse" and t[0] == "!" else t)
         return acc
     for c in t[1]:
         tree_vars(style, c, acc)
@@ -354,6 +363,7 @@ def real_parse(style, s):
     from pkgcore.ebuild.conditionals import DepSet
     from pkgcore.restrictions import boolean, values
 
+    style = base(style)
     if style == "dep":
         return DepSet.parse(s, atom, attr="DEPEND")
     if style == "license":
@@ -542,7 +552,7 @@ def check_corrupt(style, s, classes=None):
 def corruptions(style, s):
     toks = s.split()
     ins = ["(", ")", "||", "x?"]
-    if style == "requse":
+    if base(style) == "requse":
         ins.append("^^")
     if style == "srcuri":
         ins.append("->")
@@ -563,8 +573,8 @@ def corruptions(style, s):
 # ---------------------------------------------------------------- partition
 
 CORRUPT_SIZES = {
-    "quick": {"dep": 4, "license": 4, "restrict": 4, "srcuri": 4, "requse": 4},
-    "thorough": {"dep": 5, "license": 5, "restrict": 6, "srcuri": 6, "requse": 5},
+    "quick": {"dep": 4, "license": 4, "restrict": 4, "srcuri": 4, "requse": 4, "dep2": 0, "requse2": 0},
+    "thorough": {"dep": 5, "license": 5, "restrict": 6, "srcuri": 6, "requse": 5, "dep2": 0, "requse2": 0},
 }
 
 
@@ -649,7 +659,7 @@ def _stringify_choice_ops(case):
     """stringify_boolean has no rendering for ^^ / ?? nodes: a REQUIRED_USE string that keeps such a group after
     parsing does not round-trip. Narrow: REQUIRED_USE style, the failing aspect is the round trip, and the string
     has a ?? group, or a ^^ group with at least two children (a one-child ^^ group is the child itself)."""
-    if case.get("style") != "requse":
+    if case.get("style") not in ("requse", "requse2"):
         return False
     if case.get("kind") == "valid":
         if case.get("aspect") != "roundtrip":
@@ -694,7 +704,7 @@ def _amo_single(case):
     conditionals are dropped) is replaced by that member, i.e. the member becomes required. Narrow: REQUIRED_USE
     style, semantic aspect, and the whole observed truth table equals the reference semantics with exactly this
     substitution made (so any other deviation on the same string still alarms)."""
-    if case.get("style") != "requse" or case.get("kind") != "valid" or case.get("aspect") != "sem" or "got" not in case:
+    if case.get("style") not in ("requse", "requse2") or case.get("kind") != "valid" or case.get("aspect") != "sem" or "got" not in case:
         return False
     if scan("requse", case["s"]) != "valid":
         return False
